@@ -335,6 +335,14 @@ func (e *readerEnv) rawUser(u int, withFaults bool) {
 		// read; in the final phase read everything that is left
 		size := simrt.Pick(st, 4096, 1, 100, 16384, 32768, int(spec.Geo.PieceSize)*2+7)
 		buf := make([]byte, size)
+		if pos < length && st.Bool(1, 4) {
+			// aimed: read at the step at which the piece under the cursor is
+			// being hashed - request and completion cross
+			pi := int((off + pos) / spec.Geo.PieceSize)
+			if simrt.AwaitStep(func() bool { return e.t.Pieces.SimState(pi) == 2 }, time.Duration(1+st.Choice(10))*time.Second) {
+				simrt.Probe("read-aimed-at-a-piece-being-hashed")
+			}
+		}
 		deadline := time.Now().Add(e.liveBound(pos, length))
 		zeros := 0
 		for {
